@@ -615,7 +615,7 @@ fn run(ctx: &ShardCtx, rep: &mut Report) {
     // (a) cuts: enumerate offsets of reference conversations
     let convs: Vec<Conv> = match ctx.tier {
         Tier::Quick => (0..8u64).map(|i| Conv { msgs: 1 + (i % 3) as u8, big: i % 2 == 1, rcv_second: i % 4 >= 2, tokio_seed: ctx.seed.wrapping_add(i), mfs: if i % 5 == 4 { 4096 } else { 512 } }).collect(),
-        Tier::Thorough => (0..24u64).map(|i| Conv { msgs: 1 + (i % 3) as u8, big: i % 2 == 1, rcv_second: i % 4 >= 2, tokio_seed: ctx.seed.wrapping_add(i), mfs: if i % 5 == 0 { 4096 } else { 512 } }).collect(),
+        Tier::Thorough => (0..300u64).map(|i| Conv { msgs: 1 + (i % 3) as u8, big: i % 2 == 1, rcv_second: i % 4 >= 2, tokio_seed: ctx.seed.wrapping_add(i), mfs: if i % 5 == 0 { 4096 } else { 512 } }).collect(),
     };
     let mut seen = std::collections::HashSet::new();
     let mut n: u64 = 0;
